@@ -163,6 +163,24 @@ def pair_part(ck):
                     g.append(len(jobs))
                     jobs.append(dict(conf=dict(base, **v), seed=1000 + sd, n_total=32, **({"timeout": 240.0} if isinstance(v.get("pool"), int) and v["pool"] > 1 else {})))
                 groups.append(g)
+                if not cl:
+                    # the user's extra arguments (log_likelihood_kwargs / _args) reach the likelihood under every strategy
+                    kb = dict(base, shift=2.5)
+                    g2 = []
+                    for v in [dict(via="kwargs"), dict(via="kwargs", pool="perm", pool_seed=sd), dict(via="kwargs", pool=1), dict(via="kwargs", evaluation="vector"),
+                              dict(via="args"), dict(via="args", pool="perm", pool_seed=sd + 1), dict(via="kwargs", evaluation="blobs", pool="perm", pool_seed=sd)]:
+                        g2.append(len(jobs))
+                        jobs.append(dict(conf=dict(kb, **v), seed=1000 + sd, n_total=32))
+                    groups.append(g2)
+        if sd == seeds[0] or ck.tier == "thorough":
+            # nothing about the configuration may depend on the pool: the default particle number under a real pool of a size that
+            # does not divide it
+            g3 = []
+            for v in [dict(), dict(pool=3)]:
+                g3.append(len(jobs))
+                jobs.append(dict(conf=dict(sample="rwm", clustering=False, n_particles=None, n_dim=2, **v), seed=1000 + sd, n_total=16,
+                                 **({"timeout": 240.0} if v else {})))
+            groups.append(g3)
     R = pairs.run_many(jobs)
     P = []
     meta = []
@@ -212,6 +230,20 @@ def main():
     cov.update(sc)
     pc = pair_part(ck)
     cov.update(pc)
+    # calls are counted exactly across save / resume too (evaluations made while resuming belong to the run)
+    from vlib import procs, psrun
+
+    rj = [dict(conf=c, seed=135 + i + 100 * ck.seed, label=f"c13resume#{i}", n_total=48, save_every=2, max_ckpt=2, vary_n_total=False)
+          for i, c in enumerate([dict(clustering=False, evaluation="vector"), dict(clustering=True, sample="rwm", evaluation="blobs"), dict(clustering=False, pool="perm")])]
+    rres = procs.run(sysrun.resume_job, rj, procs=len(rj), timeout=600)
+    rtr = []
+    for st_, r_ in rres:
+        if st_ != "ok":
+            raise RuntimeError("resume worker failed: " + str(r_)[:300])
+        rtr += r_
+    rfails, _rst = psrun.validate(rtr)
+    sysrun.attribute(ck, "C13", rtr, rfails)
+    cov["resumed_runs_validated"] = sum(1 for t in rtr if t["meta"].get("resumed"))
     cov.update({
         "traces_validated_against_impl": cov["dispatch_orders_replayed"] + sc["system_runs"] + pc["pairs_validated"],
         "evaluations": cov["dispatch_orders_replayed"] + sc["system_events_validated"] + pc["pair_states"],
